@@ -256,7 +256,7 @@ func main() {
 		for _, who := range []string{"client-finish", "server-finish", "server-fail"} {
 			for _, traffic := range []bool{false, true} {
 				name := fmt.Sprintf("chan/%s/%s", kind, who)
-				q, t := 1, 2
+				q, t := 2, 3
 				if traffic {
 					name += "/traffic"
 					q, t = 1, 2
